@@ -15,6 +15,7 @@ from symx import builders, env, geo
 from symx.core import And, Iff, Not, Or, same
 from symx.runner import Case, main_run, replay_file
 from symx.snap import snapshot, unchanged
+from harness import geomref
 
 PROP = 'C04'
 
@@ -46,6 +47,12 @@ def _make(conv, shape, holes, skew, mesh_opts=None):
         if ny == 1 or nx == 1:
             # a single coordinate value has no derivable width: such axes need stored bounds
             kw = dict(lat_bounds=numpy.stack([lat - 0.5, lat + 0.5], axis=-1), lon_bounds=numpy.stack([lon - 1.0, lon + 1.0], axis=-1))
+        if (mesh_opts or {}).get('explicit'):
+            # coordinate variables without identifying attributes: the caller names them
+            ds = builders.cf1d(ny, nx, lat=lat, lon=lon, lat_name='northing', lon_name='easting', ydim='a', xdim='b', as_coords=False,
+                               lat_attrs=dict(units='m', standard_name='projection_y_coordinate'),
+                               lon_attrs=dict(units='m', standard_name='projection_x_coordinate'), **kw)
+            return ds, CFGrid1D(ds, latitude='northing', longitude='easting')
         ds = builders.cf1d(ny, nx, lat=lat, lon=lon, **kw)
         return ds, CFGrid1D(ds)
     s = 0.25 if skew else 0.0
@@ -62,6 +69,13 @@ def _make(conv, shape, holes, skew, mesh_opts=None):
             # corners listed in a crossing order: a self-intersecting cell, dropped with a warning
             lonb[j, i] = lonb[j, i][[0, 2, 1, 3]]
             latb[j, i] = latb[j, i][[0, 2, 1, 3]]
+        if (mesh_opts or {}).get('derived'):
+            # no stored bounds: corners are derived from the centres; missing cells are NaN centres
+            for (j, i) in holes:
+                lat[j, i] = numpy.nan
+                lon[j, i] = numpy.nan
+            ds = builders.cf2d(ny, nx, lat=lat, lon=lon) if conv == 'cf2d' else builders.shoc_simple(ny, nx, lat=lat, lon=lon)
+            return ds, (CFGrid2D(ds) if conv == 'cf2d' else ShocSimple(ds))
         REF['corners'] = (lonb, latb)
         if conv == 'cf2d':
             ds = builders.cf2d(ny, nx, lat=lat, lon=lon, lat_bounds=latb, lon_bounds=lonb)
@@ -88,6 +102,7 @@ def body(ctx, conv, shape, holes, skew, via, mesh_opts=None, history=False, boun
     snap = snapshot(ds)
     polygons = cv.polygons           # concrete geometry: real shapely
     N = len(polygons)
+    geomref.check(ctx, ds, cv, kind=conv, **({'names': ('northing', 'easting')} if (mesh_opts or {}).get('explicit') else {}))
     if conv == 'ugrid':
         nodes, faces = builders.MESHES[shape]
         ctx.check(all(polygons[f] is not None and polygons[f].equals(shapely.Polygon([nodes[v] for v in faces[f]])) for f in range(len(faces))),
@@ -105,7 +120,7 @@ def body(ctx, conv, shape, holes, skew, via, mesh_opts=None, history=False, boun
                 else:
                     ok = ok and p is not None and p.equals(shapely.Polygon(list(zip(lonb[j, i], latb[j, i]))))
         ctx.check(ok, 'the cells searched are the stored corner bounds of the grid')
-    if conv == 'cf1d' and min(shape) >= 2:
+    if conv == 'cf1d' and min(shape) >= 2 and not (mesh_opts or {}).get('explicit'):
         # "a cell polygon contains the point" is about the cells the dataset describes: for derived 1-D bounds those
         # are the midpoint rectangles (written here from the CF text, not taken from the code under test)
         def edges(v):
@@ -203,6 +218,13 @@ def cases(tier):
         yield Case(f'{conv}:{shape[0]}x{shape[1]}:holes{len(holes)}:skew:get_index_for_point:bounds-as-coordinates', body,
                    dict(conv=conv, shape=shape, holes=holes, skew=skew, via='get_index_for_point', bounds_coords=True),
                    max_paths=20000, split=16, patches=PATCHES)
+    # cells derived from the centres (a missing centre one cell in from the border; a one-cell-wide channel); coordinate
+    # variables named by the caller
+    for conv, shape, holes, mo in (('cf2d', (3, 4), ((1, 1),), dict(derived=True)), ('shoc_simple', (3, 3), ((0, 1), (2, 1)), dict(derived=True)),
+                                   ('cf1d', (2, 3), (), dict(explicit=True))):
+        yield Case(f'{conv}:{shape[0]}x{shape[1]}:holes{len(holes)}:{"+".join(mo)}:get_index_for_point', body,
+                   dict(conv=conv, shape=shape, holes=holes, skew=True, via='get_index_for_point', mesh_opts=mo),
+                   max_paths=60000, split=32, patches=PATCHES)
     # a missing cell before a self-intersecting one: the dropped cell is found in the full array
     for conv, shape, holes, bow in (('cf2d', (2, 3), ((0, 0),), ((1, 1),)), ('shoc_simple', (2, 2), ((0, 1),), ((1, 0),))):
         yield Case(f'{conv}:{shape[0]}x{shape[1]}:holes1:bowtie1:get_index_for_point', body,
